@@ -1,13 +1,26 @@
-(* C09/C10 driver for the extracted client model (Client/Model.v).
+(* C09/C10 driver for the extracted client model: [step2] of Client/Live.v (= Client/Model.v with the
+   repaired receive loop: a message that cannot be handled is acknowledged and skipped instead of
+   killing the loop), started keyed, without Warnings channel and handler.
+   Numbers cross the boundary as OCaml Int64 (server msg ids are unix time << 32).
      model_C09 replay   < trace      replays the A lines of a trace recorded by harness/root/cmd/c09:
                                      prints  M idx n projection   and   MF idx final-state
      model_C09 enum k0 k1 gz limit   enumerates every maximal history of two callers (one call each of result
                                      kinds k0, k1) against a server that answers in any order, plain or in
                                      one container; prints them as scripts for `c09 run script`. *)
 
-let rec z_of_int (i : int) : z =
-  if i = 0 then Z0 else if i > 0 then Zpos (pos_of_int i) else Zneg (pos_of_int (- i))
-let int_of_z (x : z) : int = match x with Z0 -> 0 | Zpos p -> int_of_pos p | Zneg p -> - (int_of_pos p)
+let rec pos_of_i64 (i : int64) : positive =
+  if i = 1L then XH
+  else if Int64.logand i 1L = 0L then XO (pos_of_i64 (Int64.shift_right_logical i 1))
+  else XI (pos_of_i64 (Int64.shift_right_logical i 1))
+let z_of_i64 (i : int64) : z =
+  if i = 0L then Z0 else if Int64.compare i 0L > 0 then Zpos (pos_of_i64 i) else Zneg (pos_of_i64 (Int64.neg i))
+let rec i64_of_pos (p : positive) : int64 =
+  match p with XH -> 1L | XO q -> Int64.mul 2L (i64_of_pos q) | XI q -> Int64.add (Int64.mul 2L (i64_of_pos q)) 1L
+let i64_of_z (x : z) : int64 = match x with Z0 -> 0L | Zpos p -> i64_of_pos p | Zneg p -> Int64.neg (i64_of_pos p)
+let zs (s : string) : z = z_of_i64 (Int64.of_string s)
+let sz (x : z) : string = Int64.to_string (i64_of_z x)
+let z_of_int (i : int) : z = z_of_i64 (Int64.of_int i)
+let int_of_z (x : z) : int = Int64.to_int (i64_of_z x)
 let rec nat_of_int (i : int) : nat = if i <= 0 then O else S (nat_of_int (i - 1))
 let rec int_of_nat (n : nat) : int = match n with O -> 0 | S m -> 1 + int_of_nat m
 
@@ -20,9 +33,9 @@ let string_of_kind = function KObj -> "obj" | KBool -> "bool" | KVecBare -> "vec
 let rec parse_body (tok : string list) : body * string list =
   match tok with
   | "res" :: r :: g :: k :: p :: rest ->
-    (BResult (z_of_int (int_of_string r), g = "1", kind_of_string k, z_of_int (int_of_string p)), rest)
+    (BResult (zs r, g = "1", kind_of_string k, zs p), rest)
   | "err" :: r :: g :: p :: rest ->
-    (BError (z_of_int (int_of_string r), g = "1", false, z_of_int (int_of_string p)), rest)
+    (BError (zs r, g = "1", false, zs p), rest)
   | "gz" :: rest -> let (b, rest') = parse_body rest in (BGzip b, rest')
   | "cont" :: n :: rest ->
     let n = int_of_string n in
@@ -31,16 +44,16 @@ let rec parse_body (tok : string list) : body * string list =
       else match tok with
         | sid :: seq :: rest ->
           let (b, rest') = parse_body rest in
-          items (i - 1) rest' (((z_of_int (int_of_string sid), z_of_int (int_of_string seq)), b) :: acc)
+          items (i - 1) rest' (((zs sid, zs seq), b) :: acc)
         | _ -> failwith "container item"
     in
     let (its, rest') = items n rest [] in (BContainer its, rest')
   | "pong" :: rest -> (BPong, rest)
   | "ack" :: rest -> (BAck, rest)
   | "upd" :: rest -> (BUpdate, rest)
-  | "newsess" :: s :: rest -> (BNewSession (z_of_int (int_of_string s)), rest)
-  | "badsalt" :: i :: s :: rest -> (BBadSalt (z_of_int (int_of_string i), z_of_int (int_of_string s)), rest)
-  | "badmsg" :: i :: rest -> (BBadMsg (z_of_int (int_of_string i)), rest)
+  | "newsess" :: s :: rest -> (BNewSession (zs s), rest)
+  | "badsalt" :: i :: s :: rest -> (BBadSalt (zs i, zs s), rest)
+  | "badmsg" :: i :: rest -> (BBadMsg (zs i), rest)
   | "garbage" :: rest -> (BGarbage, rest)
   | t :: _ -> failwith ("body " ^ t)
   | [] -> failwith "empty body"
@@ -57,25 +70,31 @@ let getc_i (t : int) (s : state) : caller =
   let rec nth i l = match l with [] -> idle_caller | x :: r -> if i = 0 then x else nth (i - 1) r in
   nth t s.callers
 
+(* a result is (kind, token); the harness derives the whole value from the token (vector length class
+   token mod 5: 1 2 17 0 1500 elements, the token in the LAST element) and prints kind:token only if every
+   element / field it got back is the one sent; an empty vector cannot carry the token *)
 let show_ret = function
   | RetVal (KBool, p) -> "bool:" ^ string_of_int ((int_of_z p) land 1)
-  | RetVal (k, p) -> string_of_kind k ^ ":" ^ string_of_int (int_of_z p)
-  | RetErr p -> "err:" ^ string_of_int (int_of_z p)
+  | RetVal ((KVecBare | KVecObj) as k, p) when (int_of_z p) mod 5 = 3 -> string_of_kind k ^ ":empty"
+  | RetVal (k, p) -> string_of_kind k ^ ":" ^ sz p
+  | RetErr p -> "err:" ^ sz p
   | RetNil -> "nil"
 
 (* projection of the frame written by this step, if any *)
 let show_written (pre : state) (post : state) : string list =
   match wire_out post.elog, wire_out pre.elog with
   | w :: prev, old when List.length (w :: prev) = List.length old + 1 ->
-    let inc = match prev with [] -> "1" | p :: _ -> if int_of_z w.w_id > int_of_z p.w_id then "1" else "0" in
-    let m4 = ((int_of_z w.w_id) mod 4 + 4) mod 4 in
-    let b4 = match prev with [] -> "0" | p :: _ -> if int_of_z w.w_id = int_of_z p.w_id + 4 then "1" else "0" in
+    let id = i64_of_z w.w_id in
+    let inc = match prev with [] -> "1" | p :: _ -> if Int64.compare id (i64_of_z p.w_id) > 0 then "1" else "0" in
+    let m4 = Int64.to_int (Int64.rem (Int64.add (Int64.rem id 4L) 4L) 4L) in
+    let b4 = match prev with [] -> "0" | p :: _ -> if id = Int64.add (i64_of_z p.w_id) 4L then "1" else "0" in
     (match w.w_kind with
-     | WReq _ -> [Printf.sprintf "W:req:%d:%d:%s:b%s" (int_of_z w.w_seq) m4 inc b4]
-     | WAck sid -> [Printf.sprintf "W:ack:%d:%d:%s:b%s:ack=%d" (int_of_z w.w_seq) m4 inc b4 (int_of_z sid)])
+     | WReq _ -> [Printf.sprintf "W:req:%s:%d:%s:b%s" (sz w.w_seq) m4 inc b4]
+     | WAck sid -> [Printf.sprintf "W:ack:%s:%d:%s:b%s:ack=%s" (sz w.w_seq) m4 inc b4 (sz sid)])
   | _ -> []
 
-let project (pre : state) (l : label) (post : state) : string =
+let project (pre2 : state2) (l : label) (post2 : state2) : string =
+  let pre = pre2.base and post = post2.base in
   let items =
     match l with
     | LCall (t, _) -> let t = int_of_nat t in [Printf.sprintf "c%d@%s" t (cpoint (getc_i t post).c_pc)]
@@ -103,20 +122,26 @@ let parse_label (tok : string list) : label option =
   | ["step"; a; clk] ->
     if String.length clk > 0 && clk.[0] = 'x' then None
     else
-      let c = z_of_int (int_of_string clk) in
+      let c = zs clk in
       if a = "rx" then Some (LStep (ARx, c))
       else Some (LStep (ACaller (nat_of_int (int_of_string (String.sub a 1 (String.length a - 1)))), c))
   | "srv" :: sid :: seq :: rest ->
     let (b, _) = parse_body rest in
-    Some (LSrv ((z_of_int (int_of_string sid), z_of_int (int_of_string seq)), b))
+    Some (LSrv ((zs sid, zs seq), b))
   | ["close"] -> Some LClose
   | _ -> None
 
+let start2 : state2 = init2 { cf_warn = WNil; cf_handler = false; cf_keyed = true }
+let step_l (s : state2) (l : label) : state2 option = step2 s (L1 l)
+
 let replay () =
-  let st = ref (Some init) in
+  let st = ref (Some start2) in
   iter_lines (fun l ->
     match split_tab l with
-    | "B" :: _ -> st := Some init
+    | "B" :: _ -> st := Some start2
+    | "P" :: _ :: "seq" :: v :: _ ->
+      (* the session starts with this seq_no (the client's counter was set before the run) *)
+      (match !st with Some s -> st := Some { s with base = { s.base with seqno = zs v } } | None -> ())
     | "A" :: idx :: n :: lbl :: _ when String.length lbl > 6 && String.sub lbl 0 6 = "probe " ->
       (* a sender released from "prelock" while another one holds the send lock: the model refuses the step *)
       (match !st with
@@ -125,7 +150,7 @@ let replay () =
          let a = String.sub lbl 6 (String.length lbl - 6) in
          let lab = if a = "rx" then LStep (ARx, Z0)
            else LStep (ACaller (nat_of_int (int_of_string (String.sub a 1 (String.length a - 1)))), Z0) in
-         (match step s lab with
+         (match step_l s lab with
           | None -> Printf.printf "M\t%s\t%s\tblocked\n" idx n
           | Some _ -> Printf.printf "M\t%s\t%s\tREJECT:model-lets-it-pass\n" idx n; st := None))
     | "A" :: idx :: n :: lbl :: _ ->
@@ -135,14 +160,15 @@ let replay () =
          (match parse_label (String.split_on_char ' ' lbl) with
           | None -> Printf.printf "M\t%s\t%s\tREJECT:unrepresentable-label\n" idx n; st := None
           | Some lab ->
-            (match step s lab with
+            (match step_l s lab with
              | None -> Printf.printf "M\t%s\t%s\tREJECT:not-enabled\n" idx n; st := None
              | Some s' -> Printf.printf "M\t%s\t%s\t%s\n" idx n (project s lab s'); st := Some s')))
     | "F" :: idx :: _ ->
       (match !st with
-       | Some s ->
-         Printf.printf "MF\t%s\tseq=%d table=%d hints=%d\tunacked=%d rx=%s\n" idx (int_of_z s.seqno)
-           (List.length s.table) (List.length s.hints) (List.length (unacked s.elog)) (rpoint s.rx)
+       | Some s2 ->
+         let s = s2.base in
+         Printf.printf "MF\t%s\tseq=%s table=%d hints=%d\tunacked=%d rx=%s failed=%d\n" idx (sz s.seqno)
+           (List.length s.table) (List.length s.hints) (List.length (unacked s.elog)) (rpoint s.rx) (int_of_nat s2.failed)
        | None -> Printf.printf "MF\t%s\tREJECTED\n" idx)
     | _ -> ())
 
@@ -162,9 +188,10 @@ let enum k0 k1 gz limit =
       print_endline "E"
     end in
   (* ids of the calls once written, which of them the server has answered *)
-  let rec go (s : state) (path : string list) (called : bool array) (answered : bool array) (clk : int) (nsid : int) =
+  let rec go (s2 : state2) (path : string list) (called : bool array) (answered : bool array) (clk : int) (nsid : int) =
     let moves = ref [] in
-    let add lab line upd = match step s lab with Some s' -> moves := (s', line, upd) :: !moves | None -> () in
+    let s = s2.base in
+    let add lab line upd = match step_l s2 lab with Some s' -> moves := (s', line, upd) :: !moves | None -> () in
     for t = 0 to 1 do
       if not called.(t) then
         add (LCall (nat_of_int t, hinted kinds.(t)))
@@ -203,7 +230,7 @@ let enum k0 k1 gz limit =
           upd c a;
           go s' (line :: path) c a (clk + 1) (nsid + 12)) (List.rev ms)
   in
-  go init [] [| false; false |] [| false; false |] 1 0;
+  go start2 [] [| false; false |] [| false; false |] 1 0;
   Printf.eprintf "enum %s %s gz=%s: %d maximal histories, %d printed\n" k0 k1 gz !total !count
 
 let () =
